@@ -11,7 +11,10 @@
                i<name>  n<decimal>  (  NOT x  not x  NOTC x  notc x  ~ x  b<op> l r
              with <op> one of OR or AND and = == != <> < <= > >= <=> || + - * / % DIV div MOD mod
      stdout: <hex of the source text: the values of ExprSpec.print e joined by single spaces>
-             TAB <hex of the lines of ExprSpec.ref e>     |  NOTWF (ExprSpec.wfb e = false)  | BAD *)
+             TAB <hex of the lines of ExprSpec.ref e>
+             TAB L (ExprSpec.wfb e = true: a reading of the layered grammar)
+               | X (only ExprSpec.wfxb e = true: a precedence-climb reading outside the layered grammar)
+             |  NOTWF (ExprSpec.wfxb e = false)  | BAD *)
 open Expr_ex
 
 let rec pos_of_int i =
@@ -128,10 +131,10 @@ let run_spec line =
   try
     match parse_tree (String.split_on_char ' ' line) with
     | (e, []) ->
-      if not (wfb e) then "NOTWF"
+      if not (wfxb e) then (if wfb e then "BAD" else "NOTWF")
       else begin
         let src = String.concat " " (List.map (fun it -> string_of_bytes it.it_val) (print e)) in
-        hex_of_string src ^ "\t" ^ hex_of_string (text_of_rose (ref e))
+        hex_of_string src ^ "\t" ^ hex_of_string (text_of_rose (ref e)) ^ "\t" ^ (if wfb e then "L" else "X")
       end
     | _ -> "BAD"
   with Bad | Failure _ | Invalid_argument _ -> "BAD"
